@@ -54,9 +54,85 @@ def construct(eng, f, args, kwargs, st, node):
     if f.py in ('OscBundle', 'OscMessage'):
         bad = st.fork()
         exc = 'OscBundleParseError' if f.py == 'OscBundle' else 'OscMessageParseError'
-        return [(st, V('obj', oid='%s!%d' % (f.py, next(eng.counter)))),
-                (bad, Raised(eng.make_exc(exc, node=node)))]
+        r = V('obj', oid='%s!%d' % (f.py, next(eng.counter)))
+        st.trace.append(('parse-element', f.py, args[0] if args else None, r))
+        return [(st, r), (bad, Raised(eng.make_exc(exc, node=node)))]
     return None
+
+
+def pc_since(trace):
+    idx = -1
+    for i, e in enumerate(trace):
+        if e[0] == 'loop-head':
+            idx = i
+    return trace[idx + 1:] if idx >= 0 else []
+
+
+def pc_remember(eng, st):
+    st.ghost = dict(st.ghost)
+    st.ghost['index_at_head'] = st.env['index'].z
+
+
+def pc_getattr(eng, obj, name, st, node):
+    if obj.k == 'ref' and obj.cls == 'ContentList' and name == 'append':
+        def app(eng, args, kwargs, st, node):
+            st.trace.append(('contents-append', args[0]))
+            return [(st, NONE)]
+        return [(st, V('func', py=('spec', app)))]
+    return None
+
+
+def pc_new_list(eng, items, st):
+    if items == []:
+        return V('ref', cls='ContentList', oid='contents')
+    return None
+
+
+def pc_classify(which):
+    def pol(eng, selfv, args, kwargs, st, node):
+        b = z3.Bool('%s!%d' % (which, next(eng.counter)))
+        st.trace.append(('classify', which, args[0], b))
+        return [(st, vbool(b))]
+    return pol
+
+
+def pc_pass(c, L):
+    """one bundle element per pass: its size field is read at the position the previous element ended, the
+    element is exactly the `size` bytes after that field, the position moves past it (elements neither overlap
+    nor leave gaps), and it is parsed once as what it starts like - a bundle, else a message - and kept"""
+    base = L.index >= 0
+    if L.phase != 'after':
+        return base
+    ev = pc_since(c.trace)
+    i0 = c.st.ghost['index_at_head']
+    size = c.st.env['content_size']
+    elems = [e for e in ev if e[0] == 'parse-element']
+    apps = [e for e in ev if e[0] == 'contents-append']
+    cls_ = [e for e in ev if e[0] == 'classify']
+    if size.k != 'int' or len(elems) > 1 or len(apps) != len(elems) or not cls_:
+        return z3.BoolVal(False)
+    cl = [base, L.index == i0 + 4 + size.z]
+    is_b = [e for e in cls_ if e[1] == 'bundle']
+    is_m = [e for e in cls_ if e[1] == 'message']
+
+    def the_element(v):
+        so = v.extra.get('slice_of') if v is not None and v.k == 'bytes' and v.extra else None
+        if so is None or not (so[0].k == 'bytes'):
+            return z3.BoolVal(False)
+        return z3.And(so[1] == i0 + 4, c._eng.bytes_len(v) == size.z)
+    if len(is_b) != 1:
+        return z3.BoolVal(False)
+    cl.append(the_element(is_b[0][2]))
+    if elems:
+        kind, arg, made = elems[0][1], elems[0][2], elems[0][3]
+        cl += [the_element(arg), z3.BoolVal(apps[0][1] is made)]
+        if kind == 'OscBundle':
+            cl.append(is_b[0][3])
+        else:
+            cl += [z3.Not(is_b[0][3]), z3.BoolVal(len(is_m) == 1), is_m[0][3] if is_m else z3.BoolVal(False)]
+    else:
+        cl += [z3.Not(is_b[0][3]), z3.BoolVal(len(is_m) == 1), z3.Not(is_m[0][3]) if is_m else z3.BoolVal(False)]
+    return z3.And(*cl)
 
 
 contract(F, 'OscBundle._parse_contents', props=('C18',),
@@ -64,18 +140,16 @@ contract(F, 'OscBundle._parse_contents', props=('C18',),
          requires=lambda c: c.index >= 0,
          raises={'OscBundleParseError': None},
          ensures=[],
-         fields={'OscBundle': {'_dgram': 'bytes'}},
+         fields={'OscBundle': {'_dgram': 'bytes'}, 'ContentList': {}},
          loops={0: Loop(
-             inv=lambda c, L: L.index >= 0,
+             inv=pc_pass,
              # every iteration consumes at least the 4 size bytes: terminates
              variant=lambda c, L: c.blen(c.pre.self.v('_dgram')) - L.index,
-             kinds={'contents': 'obj', 'content_dgram': 'bytes', 'content_size': 'int'})},
+             kinds={'content_dgram': 'bytes', 'content_size': 'int'}, havoc_hook=pc_remember)},
          policies={'get_int': get_int_model,
-                   'OscBundle.dgram_is_bundle': 'opaque', 'OscMessage.dgram_is_message': 'opaque'},
-         opaque_kinds={'OscBundle.dgram_is_bundle': 'bool', 'OscMessage.dgram_is_message': 'bool'},
-         hooks={'construct': construct},
-         opts={'untracked_lists': True},
-         class_modules={'OscBundle': F, 'OscMessage': F},
+                   'OscBundle.dgram_is_bundle': pc_classify('bundle'), 'OscMessage.dgram_is_message': pc_classify('message')},
+         hooks={'construct': construct, 'getattr': pc_getattr, 'new_list': pc_new_list},
+         class_modules={'OscBundle': F, 'OscMessage': F, 'ContentList': F},
          note='termination = the loop variant: a negative element size would leave the index where it was')
 
 
